@@ -657,7 +657,10 @@ _add("C01", rule="truncation is judged the moment Read reports end-of-stream: by
 _add("C02", rule="'without error when nothing is lost': in a run whose wire never dropped, duplicated, delayed, reordered or refused a frame, on a connection "
      "that no application closed with data still owed in either direction, no socket may report an error (error-without-loss); writes of zero "
      "bytes; receive buffers enlarged mid-run; the final verdict lets every application look at its socket once more (a handshake given up in "
-     "silence is an explicit failure)",
+     "silence is an explicit failure); in such a run a side whose application closed with nothing unread and nothing on its way, to which no data "
+     "was sent since and which saw no reset from the peer, sends no reset within 2.9 s of the Close (reset-after-orderly-close; the 3-second "
+     "abort of finding F9 comes later); a client that answered every SYN-ACK it received, lost all those answers and has nothing "
+     "outstanding is half-open, not stalled",
      probes=["runs_without_any_fault", "writes_of_no_bytes", "receive_buffers_enlarged"])
 _add("C04", rule="(sender role) the scripted receiver's earlier ACKs are delivered again behind newer ones: they offer nothing new, the largest right edge "
      "ever offered stays what it was (finding F28)", probes=["stale_acks_delivered_again"])
